@@ -18,6 +18,7 @@ gen_mdp case (gen_mdp.arrays / impl/build.py:build_mdp work on it unchanged):
             (k = 30 or 40; taken from the row's largest entry).  o is, when possible, an observation that
             action a emits nowhere else, so Pr(o | b, a) <= 2^-k for EVERY belief: possible but very rare
             (below numpy's isclose atol) -- the posterior is then a ratio of tiny numbers
+  obs_ghost / state_ghost (optional): never-possible outcomes listed with explicit "0" (see gen_pomdp)
   obs_kinds per action: "informative" | "uninformative" (same row for every ns: all posteriors equal)
             | "twin" (two observations with identical columns: their posteriors coincide)
             | "deterministic" (observation is a function of ns)
@@ -107,13 +108,19 @@ def _symmetric(mat):
 
 def gen_pomdp(rng, nmax=5, amax=3, omax=4, gamma=None, min_states=2, zero_entries=True,
               nonpos=False, goal=True, absorbing_selfloop=.7, tiny=0.0, near_twin=0.0, big_rewards=0.0,
-              force_reachable=True):
+              force_reachable=True, ghosts=0.0):
     """All of the following are OPT-IN (default off; when off they consume no randomness, so the
     default stream of cases is stable for every property that shares this generator):
     tiny        probability that the POMDP gets very rare (2^-30 / 2^-40) observation entries (obs_tiny)
     near_twin   probability that a "twin" kernel gets one column moved by 2^-30 in one row: two posteriors
                 that differ by ~1e-9 relative and must NOT be merged (obs_near_twin = [[a, ns, o1, o2, k]])
     big_rewards probability that all rewards are scaled by 1000 or 2^16 (exactly representable)
+    ghosts      probability that kernels LIST outcomes that are never possible, with explicit probability 0:
+                obs_ghost = [ids >= nO]: observations listed with "0" in some observation rows and positive
+                nowhere (so they are NOT in observation_list; nO does not count them);
+                state_ghost = [n]: a successor state listed with "0" in some transition rows, reachable from
+                nowhere (NOT in state_list; n does not count it); it has observation rows "a,n" because the
+                dictionary filter asks for observation_dist(a, ns) of every LISTED successor
     force_reachable=False  leaves states unreachable from the initial distribution (for POMDPs whose
                 state list is given explicitly)"""
     while True:
@@ -125,11 +132,29 @@ def gen_pomdp(rng, nmax=5, amax=3, omax=4, gamma=None, min_states=2, zero_entrie
                 _add_tiny(rng, case, omax)
             if near_twin and rng.random() < near_twin:
                 _add_near_twin(rng, case)
+            if ghosts and rng.random() < ghosts:
+                _add_ghosts(rng, case)
             if big_rewards and rng.random() < big_rewards:
                 f = rng.choice([1000, 2 ** 16])
                 case["reward"] = {k: str(F(r) * f) for k, r in case["reward"].items()}
                 case["reward_scale"] = f
             return case
+
+
+def _add_ghosts(rng, case):
+    n, nA, nO = case["n"], case["nA"], case["nO"]
+    case["obs_ghost"] = list(range(nO, nO + rng.randint(1, 2)))
+    rows = sorted(case["obs"])
+    for g in case["obs_ghost"]:
+        for k in rng.sample(rows, rng.randint(1, min(3, len(rows)))):
+            case["obs"][k].insert(rng.randint(0, len(case["obs"][k])), [g, "0"])
+    if rng.random() < .5:
+        case["state_ghost"] = [n]
+        trows = sorted(case["trans"])
+        for k in rng.sample(trows, rng.randint(1, min(3, len(trows)))):
+            case["trans"][k].insert(rng.randint(0, len(case["trans"][k])), [n, "0"])
+        for a in range(nA):
+            case["obs"]["%d,%d" % (a, n)] = [list(e) for e in case["obs"]["%d,%d" % (a, rng.randrange(n))]]
 
 
 def _add_near_twin(rng, case):
@@ -382,6 +407,7 @@ def features(case):
         "nO": case["nO"],
         "obs_tiny": bool(case.get("obs_tiny")),
         "obs_near_twin": bool(case.get("obs_near_twin")),
+        "obs_ghost": bool(case.get("obs_ghost")), "state_ghost": bool(case.get("state_ghost")),
         "big_rewards": bool(case.get("reward_scale")),
         "single_state": case["n"] == 1, "single_observation": case["nO"] == 1, "single_action": case["nA"] == 1,
         "unreachable_states": len(gen_mdp.reachable(case)) < case["n"],
